@@ -33,7 +33,15 @@ func CheckHistory(o *Outcome) []Viol {
 	if o.Sc.Preload > 0 || o.Sc.MaxOplog > 0 {
 		return nil // the log is trimmed by retention: not replayable from the final oplog
 	}
-	isWrite := func(k string) bool { return k == "ins" || k == "inc" || k == "fau" }
+	isWrite := func(k string) bool { return k == "ins" || k == "ins3" || k == "inc" || k == "fau" }
+	// the documents of a multi-document insert carry the call's tag plus "#i"
+	norm := func(t string) string {
+		if i := strings.IndexByte(t, '#'); i >= 0 {
+			return t[:i]
+		}
+		return t
+	}
+	multi := map[string]int{}
 	byTag := map[string]*HRec{}
 	for i := range o.History {
 		h := &o.History[i]
@@ -56,12 +64,24 @@ func CheckHistory(o *Outcome) []Viol {
 			}
 			return nil // untagged writes (delete, drop): outside the checker's vocabulary
 		}
-		if _, dup := pos[e.Tag]; dup {
-			bad("not-serializable", "a write appears twice in the log", e.Tag)
+		t := norm(e.Tag)
+		if t != e.Tag {
+			multi[t]++
+			if len(log) > 0 && log[len(log)-1] == t {
+				continue // further document of the same insert, contiguous
+			}
+		}
+		if _, dup := pos[t]; dup {
+			bad("not-serializable", "a write appears twice in the log (or a multi-document insert is not contiguous)", e.Tag)
 			continue
 		}
-		pos[e.Tag] = len(log)
-		log = append(log, e.Tag)
+		pos[t] = len(log)
+		log = append(log, t)
+	}
+	for t, n := range multi {
+		if n != 3 {
+			bad("not-serializable", "a multi-document insert is only partly in the log", fmt.Sprintf("%s: %d of 3", t, n))
+		}
 	}
 	// acknowledged vs logged
 	for tag, h := range byTag {
@@ -70,9 +90,9 @@ func CheckHistory(o *Outcome) []Viol {
 		switch {
 		case logged && !ack && h.Res.Cls != "ok":
 			bad("not-serializable", "a write call that reported "+h.Res.Cls+" is in the log", tag)
-		case !logged && ack && h.Sess == 0 && !h.InWtx:
+		case !logged && ack && (h.Sess == 0 || h.OwnCommit) && !h.InWtx:
 			w := "not-serializable"
-			if h.Kind != "ins" {
+			if h.Kind != "ins" && h.Kind != "ins3" {
 				w = "lost-update"
 			}
 			bad(w, "an acknowledged write is missing from the log", tag)
@@ -112,7 +132,9 @@ func CheckHistory(o *Outcome) []Viol {
 		switch {
 		case h.InWtx:
 			return fmt.Sprintf("w%d.%d", h.Actor, h.Op)
-		case h.Sess != 0:
+		case h.Sess != 0 && !h.OwnCommit:
+			// the call ran on the session's transaction (a call with a session context whose session
+			// had no transaction runs, and commits, on its own)
 			if w := commitOf(h); w != nil {
 				return fmt.Sprintf("s%d.%d", h.Sess, w.Inv)
 			}
@@ -163,6 +185,17 @@ func CheckHistory(o *Outcome) []Viol {
 			case "ins":
 				_, e := coll.InsertOne(nil, bson.D{{Key: "_id", Value: tag}, {Key: "tag", Value: tag}})
 				got.Cls = Classify(e)
+			case "ins3":
+				docs := []interface{}{}
+				for i := 0; i < 3; i++ {
+					t := fmt.Sprintf("%s#%d", tag, i)
+					docs = append(docs, bson.D{{Key: "_id", Value: t}, {Key: "tag", Value: t}})
+				}
+				r, e := coll.InsertMany(nil, docs)
+				got.Cls = Classify(e)
+				if r != nil {
+					got.Matched = int64(len(r.InsertedIDs))
+				}
 			case "inc":
 				r, e := coll.UpdateOne(nil, bson.D{{Key: "_id", Value: "ctr"}}, upd(tag))
 				got.Cls = Classify(e)
@@ -199,7 +232,7 @@ func CheckHistory(o *Outcome) []Viol {
 				return w.Ret, true
 			}
 			return 0, false
-		case h.Sess != 0:
+		case h.Sess != 0 && !h.OwnCommit:
 			if w := commitOf(h); w != nil {
 				return w.Ret, true
 			}
@@ -252,7 +285,7 @@ func CheckHistory(o *Outcome) []Viol {
 			continue
 		}
 		_, logged := pos[h.Tag]
-		if h.Res.Cls == "ok" && h.Res.Modified == 1 && (logged || (h.Sess == 0 && !h.InWtx)) {
+		if h.Res.Cls == "ok" && h.Res.Modified == 1 && (logged || ((h.Sess == 0 || h.OwnCommit) && !h.InWtx)) {
 			want++
 		}
 		if h.Kind == "fau" && h.Res.Doc != "" && logged {
